@@ -90,8 +90,11 @@ Theorem C18_full_block_positions : forall l i, no_spv l ->
 Proof. exact kept_idx_full. Qed.
 
 (* the wire trip keeps the hash and the header *)
+(* (all_decodable: every GoldenTicket-typed transaction of the block has the 97-byte payload that
+   Transaction::deserialize_from_net demands since fix eeb4ec7 — true of any block that was itself
+   read with deserialize_from_net, as the route does) *)
 Theorem C18_wire_hash : forall b ks l,
-  generated b -> ~ Known_C18_stale b ->
+  generated b -> ~ Known_C18_stale b -> all_decodable (b_txs b) ->
   (h_merkle_root (b_hdr b) = hzero -> b_txs b = []) ->
   lite b ks = Ok l ->
   exists c, receive l = Ok c /\ b_hash c = b_hash b /\ b_hdr c = b_hdr b.
@@ -177,7 +180,7 @@ Qed.
    two transfers: outside every known class for the in-memory statements, lite block has one placeholder *)
 Example C18_example :
   let b := wblock (Node (Node (Leaf 10) (Leaf 11)) (Node (Leaf 12) (Leaf 13)))
-             [mkTx TY_GT 1 110 20 1000 [30] [30] 210 10 (Some (Leaf 10));
+             [mkTx TY_GT 1 110 20 1000 [30] [30] 210 97 10 (Some (Leaf 10));
               wtx 11 21 31 41 1; wtx 12 22 32 42 1; wtx 13 23 33 43 1] in
   let ks := [41; 33] in
   no_spv (b_txs b) /\ generated b /\ ~ Known_C18_stale b /\ ~ Known_C18_mem b ks /\
